@@ -189,6 +189,12 @@ def coverage(chk, sf, dprog, cfg):
         for k in sorted(keys & LAYOUT_KEYS):
             n += 1
             ok = (k, position) in pos
+            if not ok and any(k in r_["keys"] for r_ in cd.recognisers(dprog).values()):
+                # some function of the derive does recognise the key; from where it is applied to fields / variants could not be followed
+                # (e.g. through a private extension trait)
+                chk.abstain("R3.1", "codec-attr:%s:%s" % (k, position), "derive/src/utils.rs", "a recogniser for `%s` exists but its call sites were not followed" % k, cfg,
+                            decided_by='corpus declarations with #[codec(..)] members in every position (R9.T) and the sibling rule R3.6 (derived Encode vs derived type_info)')
+                continue
             chk.expect(ok, "R3.1", "codec-attr:%s:%s" % (k, position), "derive/src/utils.rs",
                        ("recognised by %s" % pos.get((k, position))) if ok else
                        "the codec derive honours #[codec(%s)] on a %s (layout-affecting) but scale-info-derive never looks for it: bytes and description diverge" % (k, position), cfg)
@@ -207,6 +213,10 @@ def numbering(chk, sf, dprog, cfg):
         if is_call(ct, "core::iter::traits::iterator::Iterator::map", nargs=2) and is_call(ct[2][0], "core::iter::traits::iterator::Iterator::enumerate", nargs=1):
             flt = ct[2][0][2][0]
             okf, why = cd.is_skip_filter(dprog, flt)
+            if okf is None:
+                chk.abstain("R3.2", "scale-info-derive:filter-before-enumerate", b.where(), why, cfg,
+                            decided_by="the translation-validation corpus (R9.T) (SkippedVariants, CodecIndex, ExprDiscriminants) and the sibling rule R3.6")
+                return
             # the filtered source is the variant list itself: `variants.iter()`, or the argument of a private filtering helper (which iterates it)
             src_ok = okf and ((flt[2][0][0] == "call" and flt[2][0][1]["name"].split("::")[-1] in ("into_iter", "iter"))
                               or (flt[0] == "call" and flt[1]["name"].startswith(cd.D) and len(flt[2]) == 1))
@@ -399,6 +409,10 @@ def emission(chk, dprog, cfg):
             continue
         n += cd.site_weight(dprog, b)
         ok, why = cd.is_skip_filter(dprog, consumer, body=b, site=ct)
+        if ok is None:
+            chk.abstain("R3.4", "iteration:%s:%s" % (owner, elem.split("::")[-1]), b.where(bb), why, cfg,
+                        decided_by="corpus declarations SkippedFields, SkippedVariants, MultiAttr* (R9.T), the sibling rule R3.6 and witnesses c13_skip_member, c13_skip_second_attr")
+            continue
         if not ok and (cd.is_gathering(consumer) or (consumer is None and mir.unref(b.return_term()) == ct)):
             chk.abstain("R3.4", "iteration:%s:%s" % (owner, elem.split("::")[-1]), b.where(bb), "the members are first gathered (%s); the selection happens on the gathered list" % (consumer[1]["name"].split("::")[-1] if consumer else "returned to a flat_map"), cfg,
                         decided_by="corpus declarations SkippedFields, SkippedVariants, MultiAttr* (R9.T) and witnesses c13_skip_member, c13_skip_second_attr")
@@ -439,7 +453,10 @@ def emission(chk, dprog, cfg):
     rec = cd.recognisers(dprog).get(cd.D + "utils::is_compact")
     chk.expect(rec is not None and rec["keys"] == {"compact"} and rec["ns"] == {"codec"} and "Path" in rec["metas"], "R3.4", "is_compact-recogniser", "derive/src/utils.rs", "recognises %s" % (rec,), cfg)
     rec = cd.recognisers(dprog).get(cd.D + "utils::should_skip")
-    chk.expect(rec is not None and rec["keys"] == {"skip"} and rec["ns"] == {"codec"} and "Path" in rec["metas"], "R3.4", "should_skip-recogniser", "derive/src/utils.rs", "recognises %s" % (rec,), cfg)
+    if rec is None:
+        chk.abstain("R3.4", "should_skip-recogniser", "derive/src/utils.rs", "no function utils::should_skip", cfg, decided_by='corpus declarations with #[codec(..)] members in every position (R9.T) and the sibling rule R3.6 (derived Encode vs derived type_info)')
+    else:
+        chk.expect(rec["keys"] == {"skip"} and rec["ns"] == {"codec"} and "Path" in rec["metas"], "R3.4", "should_skip-recogniser", "derive/src/utils.rs", "recognises %s" % (rec,), cfg)
 
 
 def describing_side(chk, cfg):
